@@ -6,7 +6,7 @@ def caps(n):
 
 OPS_FOR = {
     "C04": None,   # all
-    "C05": ["push", "pop", "push_at", "pop_at", "get_set", "mem_rem", "resize", "del", "concat", "assign", "sort"],
+    "C05": ["push", "pop", "push_at", "pop_at", "get_set", "mem_rem", "resize", "del", "concat", "assign", "sort", "sort_partition"],
     "C11": ["iter", "iter_dup"],
     "C12": ["pop", "push_at", "pop_at", "get_set", "set_bad", "mem_rem", "resize", "stack"],
     "C19": ["get_set", "push", "push_at", "concat", "stack"],
@@ -16,6 +16,23 @@ OPS_FOR = {
     "C01": ["mark"],
     "C14": ["show"],
 }
+
+SORT_MAX = 5      # modular sort obligations: Array lengths up to this in the thorough tier, one less in the quick tier
+
+def extract_function(relpath, name, newname):
+    """mechanical extraction (every run, from the working tree): the text of one function of /repo, from its definition line to the
+    closing brace in column 0, with the name in the DEFINITION line replaced - calls inside the body keep the original name, so that
+    --replace-calls cuts them while the harness enters the body itself. Drops nothing of the body; fails loudly if the shape is unexpected."""
+    import os, re, vdriver
+    src = open(os.path.join(vdriver.REPO, relpath)).read()
+    m = re.search(r"^static [^\n;{]*\b%s\([^{;]*\{\n.*?^\}\n" % re.escape(name), src, re.S | re.M)
+    if not m:
+        return "#error extraction-break: %s not found in %s\n" % (name, relpath)
+    text = m.group(0)
+    head, body = text.split("{", 1)
+    if head.count(name) != 1:
+        return "#error extraction-break: unexpected definition line for %s\n" % name
+    return "/* extracted from %s on this run, definition renamed %s -> %s */\n" % (relpath, name, newname) + head.replace(name, newname) + "{" + body
 
 def array_jobs(tier, prop):
     J = _array_jobs(tier, prop) + _list_jobs(tier, prop) + _tuple_jobs(tier, prop)
@@ -36,23 +53,37 @@ def _array_jobs(tier, prop):
          "mem_rem": ["Array_Mem", "Array_Rem", "Array_Pop_At"], "resize": ["Array_Resize", "Array_Clear"], "del": ["Array_Del"],
          "concat": ["Array_Concat", "Array_Reserve_More"], "assign": ["Array_Assign", "Array_Clear"],
          "iter": ["Array_Iter_Init", "Array_Iter_Next", "Array_Iter_Last", "Array_Iter_Prev", "Array_Iter_Type", "Array_Len"],
-         "hash_cmp": ["Array_Hash", "Array_Cmp"], "mark": ["Array_Mark"], "show": ["Array_Show"], "sort": ["Array_Sort_By", "Array_Sort_Part", "Array_Sort_Partition"]}
-    def add(op, n, s, idx=None, m=None, covers=False, extra=()):
-        defs = ["N=%d" % n, "S=%d" % s]
+         "hash_cmp": ["Array_Hash", "Array_Cmp"], "mark": ["Array_Mark"], "show": ["Array_Show"], "sort": ["Array_Sort_By", "Array_Sort_Part", "Array_Sort_Partition"],
+         "sort_partition": ["Array_Sort_Partition"], "sort_part": ["Array_Sort_Part (partition and recursive calls cut by their contracts)"], "sort_by": ["Array_Sort_By"]}
+    def add(op, n, s, idx=None, m=None, covers=False, extra=(), rng=None, rc=(), gen=None, defs2=()):
+        defs = ["N=%d" % n, "S=%d" % s] + list(defs2)
         name = "%s.Array.%s.n%d.s%d" % (prop, op, n, s)
+        if rng is not None:
+            defs += ["SL=%d" % rng[0], "SR=%d" % rng[1]]; name += ".r%d_%d" % rng
         if idx is not None:
             defs.append("IDX=%d" % idx); name += ".i%s" % (str(idx).replace("-", "m"))
         if m is not None:
             defs.append("M=%d" % m); name += ".m%d" % m
-        J.append(Job(name, "C04", "K3", "Array/k3.c", "h_" + op, F[op], link=L, defines=defs, replace_calls=["exception_throw:cv_throw"],
-                     unwind=8, cbmc=["--unwindset", "cv_live_count.0:26", "--no-malloc-may-fail"] + list(extra), covers=covers,
-                     group="Array.%s" % op, also=["C05", "C11", "C12", "C19", "C09", "C10", "C06", "C01", "C14"], timeout=300,
+        J.append(Job(name, "C04", "K3", "Array/k3.c", "h_" + op, F[op], link=L, defines=defs, replace_calls=["exception_throw:cv_throw"] + list(rc),
+                     unwind=8, cbmc=["--unwindset", "cv_live_count.0:26", "--no-malloc-may-fail"] + list(extra), covers=covers, gen=gen,
+                     group="Array.%s" % op, also=["C05", "C11", "C12", "C19", "C09", "C10", "C06", "C01", "C14"], timeout=(900 if tier == "thorough" else 300),
                      bound="Array: length <= %d, every capacity the growth/shrink policy yields, every index in [-len-3, len+2]" % nmax,
                      case="len=%d cap=%d%s%s" % (n, s, "" if idx is None else " index=%d" % idx, "" if m is None else " operand_len=%d" % m),
                      replay="seq_array.c",
                      assumptions=["element model (contracts/elem.h): assign/destruct/eq/cmp/hash/size/cast/swap on the element type; discharged for Int by C09/C10 dispatch obligations",
                                   "malloc/realloc/free: cbmc built-in models, allocation failure not explored (--no-malloc-may-fail)",
                                   "header_init per its K1 contract (C19.header_init.k1)"]))
+    body = extract_function("src/Array.c", "Array_Sort_Part", "Array_Sort_Part_body")
+    def sort_modular(n):
+        # modular: partition contract, sort_part by induction over the range length, sort_by composition
+        for lo in range(0, n):
+            for hi in range(lo + 1, n):
+                add("sort_partition", n, n, covers=(lo == 0 and hi == n - 1), rng=(lo, hi))
+                add("sort_part", n, n, covers=(lo == 0 and hi == n - 1), rng=(lo, hi), rc=["Array_Sort_Partition:cv_partition_stub", "Array_Sort_Part:cv_sort_part_stub"],
+                    gen={"gen_sort_part.h": body}, defs2=["CV_SORT_BODY"])
+        add("sort_by", n, n, covers=True, rc=["Array_Sort_Part:cv_sort_part_top"])
+    for n in range(nmax + 1, (SORT_MAX if tier == "thorough" else SORT_MAX - 1) + 1):
+        sort_modular(n)
     for n in range(0, nmax + 1):
         for s in caps(n):
             first = (s == n)
@@ -78,6 +109,7 @@ def _array_jobs(tier, prop):
         add("show", n, n, covers=True)
         if n <= 2:      # length 3 exhausts the solver (recursion + element swaps through symbolic offsets)
             add("sort", n, n, covers=True, extra=["--unwindset", "Array_Sort_Part:%d" % (n + 1)])
+        sort_modular(n)
         for m in range(0, 3):
             add("assign", n, n, m=m, covers=(m == 1))
         for m in range(0, nmax + 1):
@@ -105,7 +137,7 @@ def _list_jobs(tier, prop):
             defs.append("M=%d" % m); name += ".m%d" % m
         J.append(Job(name, "C04", "K3", "List/k3.c", "h_" + op, F[op], link=L, defines=defs, replace_calls=["exception_throw:cv_throw"],
                      unwind=8, cbmc=["--unwindset", "cv_live_count.0:26", "--no-malloc-may-fail"] + list(extra), covers=covers,
-                     group="List.%s" % op, also=["C05", "C11", "C12", "C19", "C09", "C10", "C06", "C01", "C14"], timeout=300,
+                     group="List.%s" % op, also=["C05", "C11", "C12", "C19", "C09", "C10", "C06", "C01", "C14"], timeout=(900 if tier == "thorough" else 300),
                      bound="List: length <= %d, every index in [-len-3, len+2]" % nmax,
                      case="len=%d%s%s" % (n, "" if idx is None else " index=%d" % idx, "" if m is None else " operand_len=%d" % m),
                      replay="seq_list.c",
